@@ -108,12 +108,14 @@ def _emitters():
 
 
 def _squeeze_types(face):
-    """the interface with every blank removed from the type strings: what is left to compare once the documented
-    effect of a wrapped :type line (newline + indent inside the type string read back) is put aside"""
+    """the interface with every run of whitespace in the type strings collapsed to one blank: what is left to compare
+    once the documented effect of a wrapped :type line (newline + indent inside the type string read back, in the place
+    of a blank) is put aside.  (Removing the blanks altogether, as this used to do, also hid a reader that joins the
+    wrapped lines of a type WITHOUT the blank - 'download andprepare' - seeded change C18-14.)"""
     f = copy.deepcopy(face)
     for _, d in f["params"] + f["returns"]:
         if isinstance(d.get("typ"), str):
-            d["typ"] = "".join(d["typ"].split())
+            d["typ"] = " ".join(d["typ"].split())
     return f
 
 
